@@ -362,6 +362,7 @@ func sliceEqualityHelpers(p *Prog, r *Report, rule string) int {
 			}
 		}
 	}
+	n += ambiguousKeyRenderers(p, r, rule)
 	if n == 0 {
 		r.Pass(rule, "hand-written slice comparisons", "", "none in the repository: addresses are compared with reflect.DeepEqual / slices.Equal")
 	}
@@ -565,4 +566,96 @@ func writeBackIndexRule(p *Prog, r *Report, rule string) {
 		})
 	}
 	r.Floor(rule, "copy-modify-write-back sites", n, 1)
+}
+
+// ambiguousKeyRenderers (part of the shared slice-comparison lint): a function that renders a slice of numbers to
+// a string by writing the formatted elements one after the other, with no separator written in the same loop,
+// maps different slices to one string ([1,1] and [11]); two addresses compared through such a key match although
+// they differ. Returns the number of renderers examined.
+func ambiguousKeyRenderers(p *Prog, r *Report, rule string) int {
+	n := 0
+	for _, fn := range p.RepoFns("model", "spine", "util") {
+		if fn.Blocks == nil || fn.Signature.Results().Len() != 1 {
+			continue
+		}
+		if b, ok := fn.Signature.Results().At(0).Type().Underlying().(*types.Basic); !ok || b.Kind() != types.String {
+			continue
+		}
+		var sl []*ssa.Parameter
+		for _, par := range fn.Params {
+			if st, ok := par.Type().Underlying().(*types.Slice); ok {
+				if eb, isB := st.Elem().Underlying().(*types.Basic); isB && eb.Info()&types.IsInteger != 0 {
+					sl = append(sl, par)
+				}
+			}
+		}
+		for _, par := range sl {
+			t := forwardTaint(par)
+			// string-building operations inside a loop: formatted element written, separator written
+			formatted, separator := false, false
+			var at ssa.Instruction
+			for _, blk := range fn.Blocks {
+				if loopHeaderOf(blk) == nil {
+					continue
+				}
+				for _, ins := range blk.Instrs {
+					var written []ssa.Value
+					switch x := ins.(type) {
+					case *ssa.Call:
+						callee := x.Call.StaticCallee()
+						if callee == nil {
+							continue
+						}
+						switch {
+						case fnPkgPath(callee) == "strings" && strings.HasPrefix(callee.Name(), "Write"):
+							written = x.Call.Args[1:]
+						case fnPkgPath(callee) == "bytes" && strings.HasPrefix(callee.Name(), "Write"):
+							written = x.Call.Args[1:]
+						case fnPkgPath(callee) == "fmt" && strings.HasPrefix(callee.Name(), "Fprint"):
+							written = x.Call.Args[1:]
+						}
+					case *ssa.BinOp:
+						if bt, ok := x.Type().Underlying().(*types.Basic); ok && bt.Kind() == types.String && x.Op == token.ADD {
+							written = []ssa.Value{x.X, x.Y}
+						}
+					}
+					for _, w := range written {
+						if s, isS := constString(w); isS {
+							if s != "" {
+								separator = true
+							}
+							continue
+						}
+						if k, isK := w.(*ssa.Const); isK && k.Value != nil {
+							separator = true // a constant byte or rune
+							continue
+						}
+						if t[w] {
+							// derived from the slice: through a formatting call?
+							if c, isC := w.(*ssa.Call); isC {
+								if cal := c.Call.StaticCallee(); cal != nil && (fnPkgPath(cal) == "strconv" || fnPkgPath(cal) == "fmt") {
+									if fnPkgPath(cal) == "fmt" {
+										// a format string with a literal part separates
+										if len(c.Call.Args) > 0 {
+											if f, isF := constString(c.Call.Args[0]); isF && strings.Trim(f, "%dvsxXq") != "" {
+												separator = true
+											}
+										}
+									}
+									formatted = true
+									at = ins
+								}
+							}
+						}
+					}
+				}
+			}
+			if !formatted {
+				continue
+			}
+			n++
+			r.Check(rule, fmt.Sprintf("%s|key-of-%s", FnName(fn), par.Name()), separator, p.InstrPos(at), fmt.Sprintf("the elements of %s are rendered one after the other into a string; a separator is written between them: %v (without one, [1,1] and [11] give the same text)", par.Name(), separator))
+		}
+	}
+	return n
 }
